@@ -209,6 +209,14 @@ def run(ctx):
                         if l in exp_dyn:
                             exp_dyn[l].setdefault(t, set()).add(ob.obstacle_id)
         contained = {o.obstacle_id for o in sc.obstacles}
+        # whatever was recorded or not: an obstacle that is no longer in the scenario is on no lanelet's registry
+        for la in net.lanelets:
+            left = (set(la.static_obstacles_on_lanelet) | set().union(*la.dynamic_obstacles_on_lanelet.values())
+                    if la.dynamic_obstacles_on_lanelet else set(la.static_obstacles_on_lanelet)) - contained
+            if left:
+                ctx.violation("C07/%s/registry-lists-an-obstacle-that-is-not-in-the-scenario" % opname,
+                              "lanelet %d still lists %s (contained: %s)" % (la.lanelet_id, sorted(left), sorted(contained)), wit)
+                break
         for la in net.lanelets:
             gs = {x for x in la.static_obstacles_on_lanelet if x not in center_only}
             if gs != exp_static[la.lanelet_id]:
@@ -380,7 +388,9 @@ def run(ctx):
                    [("add", 101), ("assign-all", None), ("move", 101), ("move", 101), ("assign-all", None),
                     ("assign-center-only", None), ("assign-all", None)],
                    [("add", 101), ("add", 102), ("assign-all", None), ("shorten-prediction", 101),
-                    ("shorten-prediction", 102), ("assign-all", None), ("remove", 101), ("remove", 102)]):
+                    ("shorten-prediction", 102), ("assign-all", None), ("remove", 101), ("remove", 102)],
+                   [("add", 101), ("add", 102), ("assign-all", None), ("shorten-prediction", 101),
+                    ("shorten-prediction", 102), ("remove", 101), ("remove", 102), ("add", 101)]):
             ctx.fingerprint(["scripted", i, [[o, a] for o, a in sh]])
             ctx.feature("scripted-history")
             run_history(rng, lanelets, obs, sh, "scripted")
